@@ -17,8 +17,8 @@
 
    Part A  escape_path: invertible (hence injective), output alphabet, '%'
            always followed by two hex digits, '/' kept and never created.
-   Part B  base_dir: exact shape of its answers (and converse), url_ref on
-           "directory URL ++ escaped path".
+   Part B  base_dir: query/fragment ignored, exact shape of its answers (and
+           converse), dot segments refused, url_ref on "directory URL ++ escaped path".
    Part C  expected_exchanges: membership characterisation, index.html rules,
            exactly one exchange per regular file, every URL accepted.
    Part D  examples by vm_compute.
@@ -35,11 +35,17 @@
    - [leading_slash_refuted], [root_slash_refuted]: a relative path beginning
      with '/' (cannot come out of filepath.Rel) or the root written with a
      trailing slash leave the decided class when the base directory is "/".
-   - MODEL NOTE [base_dir_ex]: plain_path_char has no '.', so a base such as
-     https://example.com/site/page.html is outside base_dir's class (None) and
-     all theorems with the hypothesis [base_dir base = Some bd] say nothing
-     about it; the examples below use https://example.com/site/page .  (Go:
-     the last segment is dropped just the same, base dir = .../site/ .)
+   - CLASS OF BASES [base_dir_iff], [base_dir_ex]: scheme "://" authority path
+     ["?" query] ["#" fragment]; query and fragment are dropped
+     ([base_dir_ignores_query_fragment]); path characters letters digits
+     - _ ~ / . ; a base whose path has a segment equal to "." or ".." is
+     outside the class ([base_dir_dot_segment_none]: ResolveReference would
+     remove it), as is a base with '%' or other characters in its path.  So
+     https://example.com/site/page.html?q=1 gives https://example.com/site/ .
+     '.' in the directory part is harmless for the reader's URL tests
+     ([url_ref_shape], [dir_url_accepted]): url_ref never answers RErr on
+     base_dir's result ([base_dir_url_ref_cases]) and RUnknown only for the
+     "//" case above ([dir_url_unknown]).
    - MODEL DEVIATION [model_star_note]: Go's URL.EscapedPath() special-cases
      Path == "*" and returns "*" unescaped (golang issue 11202).  So for the one
      relative path "*" (a file called * in the root directory) gen-bundle emits
@@ -134,46 +140,187 @@ Proof.
 Qed.
 
 (* ======================= Part B : base_dir, url_ref ===================== *)
+(* The class of base URLs base_dir decides:
+     base = scheme "://" authority path ["?" query] ["#" fragment]
+   scheme: what getScheme accepts (a letter, then letters/digits/+-.);
+   authority: hostchars[":"digits], non-empty; path: empty or beginning with
+   '/', characters letters digits - _ ~ / . , no segment equal to "." or "..".
+   base_dir base = lower(scheme) "://" authority dir, dir = the path up to and
+   including its last '/', or "/" for the empty path.  (Go:
+   baseURL.ResolveReference(&url.URL{Path: rel}) keeps neither the query nor
+   the fragment of the base, drops the last path segment, and would remove
+   "." / ".." segments - which is why those stay outside the class.)
 
-(* B1. what base_dir answers: lower(scheme) "://" authority dir, where the
-   scheme is what getScheme accepts (a letter, then letters/digits/+-.), the
-   authority is hostchars[":"digits], non-empty, and dir begins and ends with
-   '/' and consists of letters, digits, - _ ~ /.  dir is the base's path up to
-   its last '/', or "/" when the base has no path: the last segment is dropped. *)
+   Abbreviations (Proofs/PathUrlBase.v), spelled out in the statements below
+   where short:
+     no_qf s      := ~ In 63 s /\ ~ In 35 s                  neither '?' nor '#'
+     qf_ok qf     := qf = [] \/ exists c r, qf = c :: r /\ (c = 63 \/ c = 35)
+     dots seg     := seg = [46] \/ seg = [46; 46]            "." or ".."
+     ends47 a     := a = [] \/ exists a', a = a' ++ [47]
+     begins47 b   := b = [] \/ exists b', b = 47 :: b'
+     dot_segment_in p := exists a seg b, p = a ++ seg ++ b /\ dots seg /\ ends47 a /\ begins47 b *)
+
+(* B0. the query and the fragment of the base are ignored *)
+Theorem base_dir_ignores_query_fragment (b q : bytes) :
+  (~ In 63 b /\ ~ In 35 b) ->
+  base_dir (b ++ [63] ++ q) = base_dir b /\ base_dir (b ++ [35] ++ q) = base_dir b.
+Proof. exact (PathUrlBase.base_dir_ignores_query_fragment b q). Qed.
+Print Assumptions base_dir_ignores_query_fragment.
+
+Example base_dir_ignores_query_fragment_ex :
+  let b := s2b "https://example.com/site/" in
+  (~ In 63 b /\ ~ In 35 b) /\
+  base_dir (b ++ [63] ++ s2b "q=1#f?x") = Some b /\ base_dir (b ++ [35] ++ s2b "frag?x#y") = Some b.
+Proof.
+  cbv zeta. split; [split; apply none_sat_not_in; reflexivity|]. split; reflexivity.
+Qed.
+
+(* in general: only what is left of the first '?' / '#' matters, and every
+   string is that part followed by nothing or by something beginning with '?' / '#' *)
+Theorem base_dir_strip (base : bytes) : base_dir base = base_dir (strip_query_fragment base).
+Proof. exact (PathUrlBase.base_dir_strip base). Qed.
+Print Assumptions base_dir_strip.
+
+Theorem strip_query_fragment_spec (s : bytes) :
+  exists qf, s = strip_query_fragment s ++ qf /\
+             (qf = [] \/ exists c r, qf = c :: r /\ (c = 63 \/ c = 35)) /\
+             (~ In 63 (strip_query_fragment s) /\ ~ In 35 (strip_query_fragment s)).
+Proof. exact (PathUrlBase.strip_decomp s). Qed.
+Print Assumptions strip_query_fragment_spec.
+
+(* has_dot_segment, declaratively: some segment of the path is "." or ".." *)
+Theorem has_dot_segment_iff (p : bytes) :
+  has_dot_segment p [] = true <->
+  exists a seg b, p = a ++ seg ++ b /\ (seg = [46] \/ seg = [46; 46]) /\
+                  (a = [] \/ exists a', a = a' ++ [47]) /\ (b = [] \/ exists b', b = 47 :: b').
+Proof. exact (PathUrlBase.has_dot_segment_iff p). Qed.
+Print Assumptions has_dot_segment_iff.
+
+(* B1. what base_dir answers: lower(scheme) "://" authority dir, where dir
+   begins and ends with '/' and consists of letters, digits, - _ ~ / . ; the
+   base is scheme "://" authority [dir t] qf with t the (dropped) last segment,
+   qf the (dropped) query/fragment, and no dot segment in the path dir t *)
 Theorem base_dir_shape (base bd : bytes) :
   base_dir base = Some bd ->
-  exists sch auth dir,
+  exists sch auth dir qf,
     bd = lower sch ++ s2b "://" ++ auth ++ dir /\
     (forallb scheme_char sch = true /\ exists c t, sch = c :: t /\ is_alpha_u c = true) /\
     authority_known auth = true /\ auth <> [] /\ ~ In 47 auth /\
     ((exists d, dir = 47 :: d) /\ (exists d, dir = d ++ [47]) /\ forallb plain_path_char dir = true) /\
-    ((base = sch ++ s2b "://" ++ auth /\ dir = [47]) \/
-     (exists t, base = sch ++ s2b "://" ++ auth ++ dir ++ t /\ ~ In 47 t)).
+    (qf = [] \/ exists c r, qf = c :: r /\ (c = 63 \/ c = 35)) /\
+    ((base = sch ++ s2b "://" ++ auth ++ qf /\ dir = [47]) \/
+     (exists t, base = sch ++ s2b "://" ++ auth ++ dir ++ t ++ qf /\ ~ In 47 t /\
+                forallb plain_path_char t = true /\ has_dot_segment (dir ++ t) [] = false)).
 Proof. exact (PathUrlBase.base_dir_shape base bd). Qed.
 Print Assumptions base_dir_shape.
 
 (* ... and conversely *)
-Theorem base_dir_complete (sch auth dir t : bytes) :
+Theorem base_dir_complete (sch auth dir t qf : bytes) :
   (forallb scheme_char sch = true /\ exists c t, sch = c :: t /\ is_alpha_u c = true) ->
   authority_known auth = true -> auth <> [] ->
   ((exists d, dir = 47 :: d) /\ (exists d, dir = d ++ [47]) /\ forallb plain_path_char dir = true) ->
-  forallb plain_path_char t = true -> ~ In 47 t ->
-  base_dir (sch ++ s2b "://" ++ auth ++ dir ++ t) = Some (lower sch ++ s2b "://" ++ auth ++ dir).
-Proof. exact (PathUrlBase.base_dir_complete sch auth dir t). Qed.
+  forallb plain_path_char t = true -> ~ In 47 t -> has_dot_segment (dir ++ t) [] = false ->
+  (qf = [] \/ exists c r, qf = c :: r /\ (c = 63 \/ c = 35)) ->
+  base_dir (sch ++ s2b "://" ++ auth ++ dir ++ t ++ qf) = Some (lower sch ++ s2b "://" ++ auth ++ dir).
+Proof. exact (PathUrlBase.base_dir_complete sch auth dir t qf). Qed.
 Print Assumptions base_dir_complete.
+
+Theorem base_dir_complete_nopath (sch auth qf : bytes) :
+  (forallb scheme_char sch = true /\ exists c t, sch = c :: t /\ is_alpha_u c = true) ->
+  authority_known auth = true -> auth <> [] ->
+  (qf = [] \/ exists c r, qf = c :: r /\ (c = 63 \/ c = 35)) ->
+  base_dir (sch ++ s2b "://" ++ auth ++ qf) = Some (lower sch ++ s2b "://" ++ auth ++ [47]).
+Proof. exact (PathUrlBase.base_dir_complete_nopath sch auth qf). Qed.
+Print Assumptions base_dir_complete_nopath.
+
+(* both directions in one statement: the domain of base_dir, and its value *)
+Theorem base_dir_iff (base bd : bytes) :
+  base_dir base = Some bd <->
+  exists sch auth dir qf,
+    bd = lower sch ++ s2b "://" ++ auth ++ dir /\
+    (forallb scheme_char sch = true /\ exists c t, sch = c :: t /\ is_alpha_u c = true) /\
+    authority_known auth = true /\ auth <> [] /\
+    ((exists d, dir = 47 :: d) /\ (exists d, dir = d ++ [47]) /\ forallb plain_path_char dir = true) /\
+    (qf = [] \/ exists c r, qf = c :: r /\ (c = 63 \/ c = 35)) /\
+    ((base = sch ++ s2b "://" ++ auth ++ qf /\ dir = [47]) \/
+     (exists t, base = sch ++ s2b "://" ++ auth ++ dir ++ t ++ qf /\ ~ In 47 t /\
+                forallb plain_path_char t = true /\ has_dot_segment (dir ++ t) [] = false)).
+Proof. exact (PathUrlBase.base_dir_iff base bd). Qed.
+Print Assumptions base_dir_iff.
+
+Example base_dir_complete_ex :
+  let sch := s2b "HTTPS" in let auth := s2b "example.com:8443" in
+  let dir := s2b "/v1.2/site/" in let t := s2b "page.html" in let qf := s2b "?q=1#frag" in
+  (forallb scheme_char sch = true /\ exists c t, sch = c :: t /\ is_alpha_u c = true) /\
+  authority_known auth = true /\ auth <> [] /\
+  ((exists d, dir = 47 :: d) /\ (exists d, dir = d ++ [47]) /\ forallb plain_path_char dir = true) /\
+  forallb plain_path_char t = true /\ ~ In 47 t /\ has_dot_segment (dir ++ t) [] = false /\
+  (qf = [] \/ exists c r, qf = c :: r /\ (c = 63 \/ c = 35)) /\
+  sch ++ s2b "://" ++ auth ++ dir ++ t ++ qf = s2b "HTTPS://example.com:8443/v1.2/site/page.html?q=1#frag" /\
+  lower sch ++ s2b "://" ++ auth ++ dir = s2b "https://example.com:8443/v1.2/site/".
+Proof.
+  cbv zeta. split; [split; [reflexivity|exists 72, (s2b "TTPS"); split; reflexivity]|].
+  split; [reflexivity|]. split; [discriminate|].
+  split; [split; [eexists; reflexivity|split; [exists (s2b "/v1.2/site"); reflexivity|reflexivity]]|].
+  split; [reflexivity|]. split; [apply none_sat_not_in; reflexivity|]. split; [reflexivity|].
+  split; [right; exists 63, (s2b "q=1#frag"); split; [reflexivity|left; reflexivity]|].
+  split; reflexivity.
+Qed.
+
+(* B1'. a "." or ".." segment anywhere in the base's path: outside the class
+   (None), whatever the rest of the path looks like.  base = scheme "://" auth
+   a "/" seg b with seg = "." or "..", b empty or beginning with '/', '?', '#' *)
+Theorem base_dir_dot_segment_none (sch auth a seg b : bytes) :
+  (forallb scheme_char sch = true /\ exists c t, sch = c :: t /\ is_alpha_u c = true) ->
+  ~ In 47 auth -> (~ In 63 auth /\ ~ In 35 auth) -> (~ In 63 a /\ ~ In 35 a) ->
+  (seg = [46] \/ seg = [46; 46]) ->
+  (b = [] \/ exists c r, b = c :: r /\ (c = 47 \/ c = 63 \/ c = 35)) ->
+  base_dir (sch ++ s2b "://" ++ auth ++ a ++ [47] ++ seg ++ b) = None.
+Proof. exact (PathUrlBase.base_dir_dot_segment_none sch auth a seg b). Qed.
+Print Assumptions base_dir_dot_segment_none.
+
+Example base_dir_dot_segment_none_ex :
+  let sch := s2b "https" in let auth := s2b "example.com" in
+  let a := s2b "/a" in let seg := s2b ".." in let b := s2b "/b/" in
+  (forallb scheme_char sch = true /\ exists c t, sch = c :: t /\ is_alpha_u c = true) /\
+  ~ In 47 auth /\ (~ In 63 auth /\ ~ In 35 auth) /\ (~ In 63 a /\ ~ In 35 a) /\
+  (seg = [46] \/ seg = [46; 46]) /\
+  (b = [] \/ exists c r, b = c :: r /\ (c = 47 \/ c = 63 \/ c = 35)) /\
+  sch ++ s2b "://" ++ auth ++ a ++ [47] ++ seg ++ b = s2b "https://example.com/a/../b/".
+Proof.
+  cbv zeta. split; [split; [reflexivity|exists 104, (s2b "ttps"); split; reflexivity]|].
+  split; [apply none_sat_not_in; reflexivity|].
+  split; [split; apply none_sat_not_in; reflexivity|].
+  split; [split; apply none_sat_not_in; reflexivity|].
+  split; [right; reflexivity|].
+  split; [right; exists 47, (s2b "b/"); split; [reflexivity|left; reflexivity]|reflexivity].
+Qed.
 
 Example base_dir_ex :
   base_dir (s2b "HTTPS://example.com:8443/site/page") = Some (s2b "https://example.com:8443/site/") /\
-  base_dir (s2b "https://example.com/site/page.html") = None /\   (* '.' in the base path: see header *)
+  base_dir (s2b "https://example.com/site/page.html") = Some (s2b "https://example.com/site/") /\
+  base_dir (s2b "https://example.com/site/?q=1") = Some (s2b "https://example.com/site/") /\
+  base_dir (s2b "https://example.com/site/#frag") = Some (s2b "https://example.com/site/") /\
+  base_dir (s2b "https://example.com/site/page.html?q=a/b#f/g") = Some (s2b "https://example.com/site/") /\
+  base_dir (s2b "https://example.com?q=1") = Some (s2b "https://example.com/") /\
+  base_dir (s2b "https://example.com/a/../b/") = None /\      (* ".." segment *)
+  base_dir (s2b "https://example.com/./") = None /\           (* "." segment *)
+  base_dir (s2b "https://example.com/a/..") = None /\
+  base_dir (s2b "https://example.com/a/.?q") = None /\
+  base_dir (s2b "https://example.com/v1.2/x") = Some (s2b "https://example.com/v1.2/") /\
+  base_dir (s2b "https://example.com/.../..a/b..") = Some (s2b "https://example.com/.../..a/") /\
   base_dir (s2b "https://example.com") = Some (s2b "https://example.com/") /\
   base_dir (s2b "https://example.com/a/b/") = Some (s2b "https://example.com/a/b/") /\
-  base_dir (s2b "https://example.com/a.b/c") = None /\      (* '.' is outside the decided class *)
+  base_dir (s2b "https://example.com/a.b/c") = Some (s2b "https://example.com/a.b/") /\
+  base_dir (s2b "https://example.com/a%20b/c") = None /\      (* '%' is outside the decided class *)
   base_dir (s2b "https:///x") = None /\
   base_dir (s2b "/relative") = None.
 Proof. vm_compute. repeat split. Qed.
 
 (* B2. url_ref on anything of that shape followed by stable characters with
-   well-formed escapes: all schemes, authorities with a port included *)
+   well-formed escapes: all schemes, authorities with a port included.  d is
+   any string over the plain alphabet - '.' included, dot segments included:
+   url_ref (url.Parse + String()) does not look at them *)
 Theorem url_ref_shape (sch auth d x : bytes) :
   (forallb scheme_char sch = true /\ exists c t, sch = c :: t /\ is_alpha_u c = true) ->
   authority_known auth = true -> auth <> [] ->
@@ -184,8 +331,13 @@ Theorem url_ref_shape (sch auth d x : bytes) :
 Proof. exact (PathUrlBase.url_ref_shape sch auth d x). Qed.
 Print Assumptions url_ref_shape.
 
+Example url_ref_shape_ex :
+  forallb plain_path_char (s2b "v1.2/site.d/") = true /\
+  url_ref (s2b "https://example.com/v1.2/site.d/a%20b.txt") = ROk true false false.
+Proof. split; reflexivity. Qed.
+
 (* B3. base_dir's answer and url_ref's verdict on it: accepted unless dir
-   begins with "//", in which case (and only then) RUnknown *)
+   begins with "//", in which case (and only then) RUnknown; never RErr *)
 Theorem base_dir_url_ref (base bd : bytes) :
   base_dir base = Some bd ->
   exists sch auth dir,
@@ -198,9 +350,17 @@ Theorem base_dir_url_ref (base bd : bytes) :
 Proof. exact (PathUrlBase.base_dir_url_ref base bd). Qed.
 Print Assumptions base_dir_url_ref.
 
+Theorem base_dir_url_ref_cases (base bd : bytes) :
+  base_dir base = Some bd -> url_ref bd = ROk true false false \/ url_ref bd = RUnknown.
+Proof. exact (PathUrlBase.base_dir_url_ref_cases base bd). Qed.
+Print Assumptions base_dir_url_ref_cases.
+
 (* B4. the index keys gen-bundle produces are what the bundle reader demands:
    for the base directory URL in the decided class, every wfb relative path
-   not beginning with '/' gives an accepted file URL and directory URL *)
+   not beginning with '/' gives an accepted file URL and directory URL.  The
+   widened class changes nothing here: '.' in the directory part is a stable
+   character for url_ref, and the one undecided case remains a base path
+   beginning with "//" *)
 Theorem dir_url_accepted (base bd r : bytes) :
   base_dir base = Some bd ->
   url_ref bd = ROk true false false ->
@@ -210,16 +370,35 @@ Theorem dir_url_accepted (base bd r : bytes) :
 Proof. exact (PathUrlBase.dir_url_accepted base bd r). Qed.
 Print Assumptions dir_url_accepted.
 
+(* the same under the weakest premise - url_ref decides the directory URL *)
+Theorem dir_url_accepted_min (base bd r : bytes) :
+  base_dir base = Some bd ->
+  url_ref bd <> RUnknown ->
+  wfb r -> (forall t, r <> 47 :: t) ->
+  url_ref bd = ROk true false false /\
+  url_ref (bd ++ escape_path r) = ROk true false false /\
+  (r <> [] -> url_ref (bd ++ escape_path r ++ [47]) = ROk true false false).
+Proof. exact (PathUrlBase.dir_url_accepted_min base bd r). Qed.
+Print Assumptions dir_url_accepted_min.
+
+(* and when it does not (base path beginning with "//"), it decides none of
+   the URLs below: the premise of [dir_url_accepted_min] is exact *)
+Theorem dir_url_unknown (base bd r : bytes) :
+  base_dir base = Some bd -> url_ref bd = RUnknown -> wfb r ->
+  url_ref (bd ++ escape_path r) = RUnknown.
+Proof. exact (PathUrlBase.dir_url_unknown base bd r). Qed.
+Print Assumptions dir_url_unknown.
+
 Example dir_url_accepted_ex :
-  let base := s2b "https://example.com:8443/site/page" in
-  let bd := s2b "https://example.com:8443/site/" in
+  let base := s2b "https://example.com:8443/v1.2/site/page.html?q=1#top" in
+  let bd := s2b "https://example.com:8443/v1.2/site/" in
   let r := s2b "sub dir/h#frag?.txt" ++ [195; 169] in
-  base_dir base = Some bd /\ url_ref bd = ROk true false false /\
+  base_dir base = Some bd /\ url_ref bd = ROk true false false /\ url_ref bd <> RUnknown /\
   wfb r /\ (forall t, r <> 47 :: t) /\
-  bd ++ escape_path r = s2b "https://example.com:8443/site/sub%20dir/h%23frag%3F.txt%C3%A9" /\
+  bd ++ escape_path r = s2b "https://example.com:8443/v1.2/site/sub%20dir/h%23frag%3F.txt%C3%A9" /\
   url_ref (bd ++ escape_path r) = ROk true false false.
 Proof.
-  cbv zeta. split; [reflexivity|]. split; [reflexivity|].
+  cbv zeta. split; [reflexivity|]. split; [reflexivity|]. split; [discriminate|].
   split; [apply wfbb_wfb; reflexivity|]. split; [intros t E; discriminate E|].
   split; reflexivity.
 Qed.
@@ -367,15 +546,24 @@ Theorem expected_urls_accepted (base bd : bytes) (tree : list fentry) (xs : list
 Proof. exact (PathUrlTree.expected_urls_accepted base bd tree xs). Qed.
 Print Assumptions expected_urls_accepted.
 
+(* the same under the weakest premise on the base: url_ref decides bd *)
+Theorem expected_urls_accepted_min (base bd : bytes) (tree : list fentry) (xs : list (bytes * Z * bytes)) :
+  expected_exchanges base tree = Some xs -> base_dir base = Some bd ->
+  url_ref bd <> RUnknown ->
+  (forall f, In f tree -> forall t, f_rel f <> 47 :: t) ->
+  Forall (fun x => url_ref (fst (fst x)) = ROk true false false) xs.
+Proof. exact (PathUrlTree.expected_urls_accepted_min base bd tree xs). Qed.
+Print Assumptions expected_urls_accepted_min.
+
 (* ======================= Part D : examples =============================== *)
 Definition file (name content : string) : fentry :=
   {| f_rel := s2b name; f_dir := false; f_content := s2b content |}.
 Definition dir (name : string) : fentry :=
   {| f_rel := s2b name; f_dir := true; f_content := [] |}.
 
-Definition base_ex : bytes := s2b "https://example.com/site/page".
+Definition base_ex : bytes := s2b "https://example.com/site/page.html".
 
-(* awkward names; the base's last path segment (page) is dropped *)
+(* awkward names; the base's last path segment (page.html) is dropped *)
 Definition names_tree : list fentry :=
   [ dir ""; file "h#frag.txt" "1"; file "a?b" "2"; file "p%41" "3"; file "b c.html" "4";
     {| f_rel := [195; 169] ++ s2b ".txt"; f_dir := false; f_content := s2b "5" |};   (* e-acute *)
@@ -433,6 +621,15 @@ Proof.
   repeat (destruct Hf as [Hf|Hf]; [subst f; vm_compute in E; discriminate E|]). destruct Hf.
 Qed.
 
+(* query and fragment of the base make no difference; dots in the directory part are kept *)
+Example index_exchanges_query :
+  expected_exchanges (s2b "https://example.com/site/page.html?q=1#top") index_tree =
+  expected_exchanges base_ex index_tree /\
+  expected_exchanges (s2b "https://example.com/v1.2/?q") [dir ""; file "a.b/c d.txt" "X"] =
+  Some [ (s2b "https://example.com/v1.2/a.b/c%20d.txt", 200%Z, s2b "X") ] /\
+  expected_exchanges (s2b "https://example.com/v1.2/../") [dir ""; file "a" "X"] = None.
+Proof. vm_compute. repeat split; reflexivity. Qed.
+
 (* names outside the decided domain: http.ServeFile refuses ".." elements,
    http.Dir refuses names that are not UTF-8 *)
 Example dotdot_undecided : expected_exchanges base_ex [dir ""; file "a/../b" "x"] = None.
@@ -444,3 +641,344 @@ Proof. reflexivity. Qed.
 (* the model's escape of the one-character path "*" (Go gives "*", see header) *)
 Example model_star_note : escape_path (s2b "*") = s2b "%2A" /\ escape_path (s2b "sub/*") = s2b "sub/%2A".
 Proof. split; reflexivity. Qed.
+
+(* ======================= Part E : gen-bundle from a HAR capture ================= *)
+(* "HAR captures (GET / non-GET entries, banned and pseudo headers, base64 bodies)
+   ... No file name, file content or flag value within the documented ranges makes
+   a tool emit an artifact the downstream tool rejects."
+
+   Model: Model/Har.v (go/bundle/cmd/gen-bundle/fromhar.go: nvpToHeader,
+   contentToBody, the loop of fromHar), then Bundle.WriteTo (b_write) and
+   bundle.Read (b_read) as in C03.  Proofs: Proofs/HarImport.v.
+
+   E1  nvpToHeader: the filtered header map, exactly.
+   E2  fromHar: which entries become exchanges (har_kept, by index; the rule
+       har_rule, which determines it uniquely), the result, exactly when it is an
+       error, totality.
+   E3  composition: what gen-bundle emits from a capture is read back by
+       bundle.Read as the normalised kept exchanges; "refused or readable".
+   E4  examples.
+
+   NOTES
+   - the body is decoded BEFORE the entry is filtered: a damaged base64 body of an
+     entry that would be dropped anyway (POST, status 1000, duplicate) fails the
+     whole import (from_har_err_iff quantifies over all entries; har_bad_body_ex).
+   - the Variants rule looks at the latest KEPT entry of the URL: an entry without
+     Variants between two entries with Variants is dropped and does not disqualify
+     the later one (har_variants_ex); a URL is kept twice only if all its kept
+     entries carry Variants (har_kept_same_url_variants), so the flag recorded for
+     a URL ("seen", updated at every kept entry) never actually changes.
+   - the writer may still refuse (non-ASCII header value, b2 with a repeated URL,
+     b1 variant sets that are incomplete, URL with fragment ...): that is a
+     refusal, not a bad artifact (har_refused_or_readable).
+   - premises of the read-back besides the successful write: the Go slice bound and
+     b_write_taint = false (the URLs lie in the class the url.Parse model decides;
+     a restriction of the model - the glue answers "unknown" otherwise). *)
+From Coq Require Import Sorted.
+From WP Require Import Base.Base64 Model.Http Model.Sxg Model.Bundle Model.Har.
+From WP Require Import Proofs.BundleRoundtripResp Proofs.BundleRoundtrip Proofs.BundleRoundtripNorm
+  Proofs.HarImport.
+
+(* ---- E1 : nvpToHeader ---------------------------------------------------------- *)
+(* Header.Values / map lookup for any predicate: the values of the surviving
+   pairs whose canonical key is k, in input order *)
+Theorem har_nvp_to_header_lookup : forall banned l k,
+  hdr_lookup (nvp_to_header banned l) k
+  = map snd (filter (fun nv => negb (pseudo_name (fst nv) || banned (fst nv))
+                               && bytes_eqb (canonical_key (fst nv)) k) l).
+Proof. exact HarImport.nvp_to_header_lookup. Qed.
+Print Assumptions har_nvp_to_header_lookup.
+
+Theorem har_nvp_to_header_keys : forall banned l k,
+  In k (map fst (nvp_to_header banned l))
+  <-> exists nv, In nv l /\ pseudo_name (fst nv) = false /\ banned (fst nv) = false
+                 /\ canonical_key (fst nv) = k.
+Proof. exact HarImport.nvp_to_header_keys. Qed.
+Print Assumptions har_nvp_to_header_keys.
+
+(* a Go map: every key once and with at least one value *)
+Theorem har_nvp_to_header_wf : forall banned l,
+  NoDup (map fst (nvp_to_header banned l)) /\ Forall (fun kv => snd kv <> []) (nvp_to_header banned l).
+Proof. exact HarImport.nvp_to_header_wf. Qed.
+Print Assumptions har_nvp_to_header_wf.
+
+(* response headers (banned = IsUncachedHeader): no key of the result starts with
+   ':' or is an uncached header; every other input pair is there under its
+   canonical key; Values(n) are the values of the surviving pairs with n's
+   canonical key, in order; Values of a pseudo / banned name is empty *)
+Theorem har_nvp_to_header_no_pseudo_no_banned : forall l,
+  let h := nvp_to_header is_uncached_header l in
+  (forall k vs, In (k, vs) h -> pseudo_name k = false /\ is_uncached_header k = false)
+  /\ (forall n v, In (n, v) l -> pseudo_name n = false -> is_uncached_header n = false ->
+        In (canonical_key n) (map fst h) /\ In v (hdr_values h n))
+  /\ (forall n, pseudo_name n = false -> is_uncached_header n = false ->
+        hdr_values h n
+        = map snd (filter (fun nv => bytes_eqb (canonical_key (fst nv)) (canonical_key n)
+                                     && negb (pseudo_name (fst nv)) && negb (is_uncached_header (fst nv))) l))
+  /\ (forall n, pseudo_name n = true \/ is_uncached_header n = true -> hdr_values h n = []).
+Proof. exact HarImport.nvp_to_header_no_pseudo_no_banned. Qed.
+Print Assumptions har_nvp_to_header_no_pseudo_no_banned.
+
+(* resh["Variants"] *)
+Theorem har_has_variants_iff : forall e,
+  har_has_variants e = true
+  <-> exists nv, In nv (h_resh e) /\ pseudo_name (fst nv) = false /\ is_uncached_header (fst nv) = false
+                 /\ canonical_key (fst nv) = s2b "Variants".
+Proof. exact HarImport.har_has_variants_iff. Qed.
+Print Assumptions har_has_variants_iff.
+
+(* ---- E2 : the loop ------------------------------------------------------------- *)
+(* har_kept es i : entry number i becomes an exchange.  The rule, exactly as the
+   loop implements it (har_rule K es i, with K the kept set itself):
+     es[i] = e, e is a GET with 100 <= status <= 999, and
+     - no kept entry before i has e's URL, or
+     - the LATEST kept entry j < i with e's URL has a Variants header and so has e. *)
+Theorem har_kept_rule : forall es i, har_kept es i <-> har_rule (har_kept es) es i.
+Proof. exact HarImport.har_kept_rule. Qed.
+Print Assumptions har_kept_rule.
+
+(* the rule has one solution *)
+Theorem har_kept_unique : forall es (K : nat -> Prop),
+  (forall i, K i <-> har_rule K es i) -> forall i, K i <-> har_kept es i.
+Proof. exact HarImport.har_kept_unique. Qed.
+Print Assumptions har_kept_unique.
+
+Theorem har_kept_same_url_variants : forall es j i ei ej,
+  (i < j)%nat -> har_kept es i -> har_kept es j ->
+  nth_error es i = Some ei -> nth_error es j = Some ej -> h_url ei = h_url ej ->
+  har_has_variants ei = true /\ har_has_variants ej = true.
+Proof. exact HarImport.har_kept_same_url_variants. Qed.
+Print Assumptions har_kept_same_url_variants.
+
+(* if every body decodes, the result is the list of kept entries in order (idx:
+   the kept positions, increasing), each mapped to
+   har_exchange e = {url, status, nvp_to_header is_uncached_header resh, decoded body} *)
+Theorem har_from_har_spec : forall es,
+  (forall e, In e es -> har_body_ok e) ->
+  exists idx ents,
+    StronglySorted lt idx /\ (forall i, In i idx <-> har_kept es i)
+    /\ map (nth_error es) idx = map Some ents
+    /\ from_har es [] [] = Ok (map har_exchange ents).
+Proof. exact HarImport.from_har_spec. Qed.
+Print Assumptions har_from_har_spec.
+
+(* the same with the list computed (har_kept_entries), and its relation to har_kept *)
+Theorem har_from_har_spec_fn : forall es,
+  (forall e, In e es -> har_body_ok e) ->
+  from_har es [] [] = Ok (map har_exchange (har_kept_entries es)).
+Proof. exact HarImport.from_har_spec_fn. Qed.
+Print Assumptions har_from_har_spec_fn.
+
+Theorem har_kept_entries_idx : forall es,
+  StronglySorted lt (har_kept_idx es)
+  /\ (forall i, In i (har_kept_idx es) <-> har_kept es i)
+  /\ map (nth_error es) (har_kept_idx es) = map Some (har_kept_entries es).
+Proof. exact HarImport.har_kept_entries_idx. Qed.
+Print Assumptions har_kept_entries_idx.
+
+(* an error exactly when some entry - kept or not - has a body that is not base64 *)
+Theorem har_from_har_err_iff : forall es,
+  from_har es [] [] = Err
+  <-> exists e, In e es /\ h_b64 e = true /\ b64_decode true false (h_text e) = None.
+Proof. exact HarImport.from_har_err_iff. Qed.
+Print Assumptions har_from_har_err_iff.
+
+Theorem har_from_har_total : forall es, from_har es [] [] <> Panic /\ from_har es [] [] <> Fuel.
+Proof. exact HarImport.from_har_total. Qed.
+Print Assumptions har_from_har_total.
+
+(* success determines both the premise and the list *)
+Theorem har_from_har_ok_inv : forall es xs,
+  from_har es [] [] = Ok xs ->
+  (forall e, In e es -> har_body_ok e) /\ xs = map har_exchange (har_kept_entries es).
+Proof. exact HarImport.from_har_ok_inv. Qed.
+Print Assumptions har_from_har_ok_inv.
+
+(* without Variants headers every URL comes out once *)
+Theorem har_no_variants_single_urls : forall es,
+  (forall e, In e (har_kept_entries es) -> har_has_variants e = false) ->
+  NoDup (map bx_url (map har_exchange (har_kept_entries es))).
+Proof. exact HarImport.har_no_variants_single_urls. Qed.
+Print Assumptions har_no_variants_single_urls.
+
+(* ---- E3 : composition with WriteTo / Read ---------------------------------------- *)
+(* har_bundle v p xs = {| b_ver := v; b_primary := p; b_manifest := None; b_sigs := None;
+                          b_exchanges := xs; b_taint := false |}  (what the tool builds) *)
+Theorem har_write_never_panic : forall v p es xs,
+  from_har es [] [] = Ok xs -> b_write (har_bundle v p xs) <> Panic.
+Proof. exact HarImport.har_write_never_panic. Qed.
+Print Assumptions har_write_never_panic.
+
+Theorem har_artifact_readable : forall v p es xs bs,
+  from_har es [] [] = Ok xs ->
+  b_write (har_bundle v p xs) = Ok bs -> lenN bs < two63 -> b_write_taint (har_bundle v p xs) = false ->
+  b_read (fun _ => true) bs = Ok (norm (har_bundle v p xs)).
+Proof. exact HarImport.har_artifact_readable. Qed.
+Print Assumptions har_artifact_readable.
+
+(* spelled out; captures without Variants: the exchanges come back sorted by URL *)
+Theorem har_artifact_contents : forall v p es xs bs,
+  from_har es [] [] = Ok xs ->
+  b_write (har_bundle v p xs) = Ok bs -> lenN bs < two63 -> b_write_taint (har_bundle v p xs) = false ->
+  xs = map har_exchange (har_kept_entries es)
+  /\ exists b', b_read (fun _ => true) bs = Ok b'
+     /\ b_ver b' = v /\ b_primary b' = p /\ b_manifest b' = None /\ b_sigs b' = None /\ b_taint b' = false
+     /\ b_exchanges b' = b_exchanges (norm (har_bundle v p xs))
+     /\ ((forall e, In e (har_kept_entries es) -> har_has_variants e = false) ->
+         b_exchanges b' = map xnorm (isort x_ltb xs)).
+Proof. exact HarImport.har_artifact_contents. Qed.
+Print Assumptions har_artifact_contents.
+
+(* refused or readable: for every capture, version and primary URL the tool either
+   refuses (import error on a body; writer error) or emits bytes, and the bytes it
+   emits are read back as the normalised kept exchanges.  No third outcome. *)
+Theorem har_refused_or_readable : forall v p es,
+  (from_har es [] [] = Err /\ exists e, In e es /\ har_body_bad e)
+  \/ (let xs := map har_exchange (har_kept_entries es) in
+      from_har es [] [] = Ok xs /\
+      (b_write (har_bundle v p xs) = Err
+       \/ exists bs, b_write (har_bundle v p xs) = Ok bs /\
+            (lenN bs < two63 -> b_write_taint (har_bundle v p xs) = false ->
+             b_read (fun _ => true) bs = Ok (norm (har_bundle v p xs))))).
+Proof. exact HarImport.har_refused_or_readable. Qed.
+Print Assumptions har_refused_or_readable.
+
+(* ---- E4 : examples ---------------------------------------------------------------- *)
+Definition har_h (n v : string) : bytes * bytes := (s2b n, s2b v).
+Definition har_entry (u m : string) (st : Z) (hs : list (bytes * bytes)) (txt : string) (b64 : bool) : hentry :=
+  {| h_url := s2b u; h_method := s2b m; h_status := st; h_resh := hs; h_text := s2b txt; h_b64 := b64 |}.
+
+(* 0: GET with a pseudo header, a banned header and a repeated header in two spellings
+   1: POST   2: GET with status 1000   3: second GET for URL 0, no Variants
+   4: GET with a base64 body (the PNG signature) *)
+Definition har_cap : list hentry :=
+  [ har_entry "https://example.com/a" "GET" 200
+      [har_h ":status" "200"; har_h "content-type" "text/html"; har_h "Set-Cookie" "k=v"; har_h "x-a" "1"; har_h "X-A" "2"]
+      "<p>hi</p>" false;
+    har_entry "https://example.com/form" "POST" 200 [har_h "content-type" "text/plain"] "posted" false;
+    har_entry "https://example.com/odd" "GET" 1000 [har_h "content-type" "text/plain"] "odd" false;
+    har_entry "https://example.com/a" "GET" 200 [har_h "content-type" "text/plain"] "second" false;
+    har_entry "https://example.com/img" "GET" 200 [har_h "Content-Type" "image/png"] "iVBORw0KGgo=" true ].
+
+Example har_cap_kept : map (har_keptb har_cap) (seq 0 5) = [true; false; false; false; true].
+Proof. vm_compute. reflexivity. Qed.
+
+Example har_cap_bodies_ok : forall e, In e har_cap -> har_body_ok e.
+Proof.
+  intros e H. cbn [In har_cap] in H.
+  repeat (destruct H as [H|H]; [subst e; intros B; vm_compute in B |- *; discriminate|]). destruct H.
+Qed.
+
+Example har_cap_import :
+  from_har har_cap [] [] =
+  Ok [ {| bx_url := s2b "https://example.com/a"; bx_status := 200;
+          bx_hdr := [(s2b "Content-Type", [s2b "text/html"]); (s2b "X-A", [s2b "1"; s2b "2"])];
+          bx_body := s2b "<p>hi</p>" |};
+       {| bx_url := s2b "https://example.com/img"; bx_status := 200;
+          bx_hdr := [(s2b "Content-Type", [s2b "image/png"])];
+          bx_body := [137; 80; 78; 71; 13; 10; 26; 10] |} ].
+Proof. vm_compute. reflexivity. Qed.
+
+(* the hypotheses of har_artifact_readable / har_artifact_contents hold of it (b2 and
+   b1), and the reader returns the two exchanges (headers normalised: one
+   comma-joined value per name, ordered by encoded lower-case name) *)
+Definition har_cap_bundle (v : bversion) : bundle :=
+  har_bundle v (Some (s2b "https://example.com/a")) (map har_exchange (har_kept_entries har_cap)).
+
+Example har_cap_hyps :
+  (exists bs, b_write (har_cap_bundle BV2) = Ok bs /\ lenN bs < two63) /\
+  b_write_taint (har_cap_bundle BV2) = false /\
+  (exists bs, b_write (har_cap_bundle BV1) = Ok bs /\ lenN bs < two63) /\
+  b_write_taint (har_cap_bundle BV1) = false /\
+  (forall e, In e (har_kept_entries har_cap) -> har_has_variants e = false).
+Proof.
+  split; [|split; [|split; [|split]]].
+  - destruct (b_write (har_cap_bundle BV2)) as [bs| | |] eqn:E; try (vm_compute in E; discriminate E).
+    exists bs. split; [reflexivity|].
+    assert (L : lenN bs = 241) by (vm_compute in E; inversion E; vm_compute; reflexivity).
+    rewrite L. reflexivity.
+  - vm_compute. reflexivity.
+  - destruct (b_write (har_cap_bundle BV1)) as [bs| | |] eqn:E; try (vm_compute in E; discriminate E).
+    exists bs. split; [reflexivity|].
+    assert (L : lenN bs = 233) by (vm_compute in E; inversion E; vm_compute; reflexivity).
+    rewrite L. reflexivity.
+  - vm_compute. reflexivity.
+  - intros e H. vm_compute in H. repeat (destruct H as [H|H]; [subst e; vm_compute; reflexivity|]). destruct H.
+Qed.
+
+Example har_cap_readback :
+  match b_write (har_cap_bundle BV2) with
+  | Ok bs => b_read (fun _ => true) bs
+  | _ => Err
+  end =
+  Ok {| b_ver := BV2; b_primary := Some (s2b "https://example.com/a"); b_manifest := None; b_sigs := None;
+        b_exchanges :=
+          [ {| bx_url := s2b "https://example.com/a"; bx_status := 200;
+               bx_hdr := [(s2b "X-A", [s2b "1,2"]); (s2b "Content-Type", [s2b "text/html"])];
+               bx_body := s2b "<p>hi</p>" |};
+            {| bx_url := s2b "https://example.com/img"; bx_status := 200;
+               bx_hdr := [(s2b "Content-Type", [s2b "image/png"])];
+               bx_body := [137; 80; 78; 71; 13; 10; 26; 10] |} ];
+        b_taint := false |}.
+Proof. vm_compute. reflexivity. Qed.
+
+(* the Variants rule: 0 kept; 1 (same URL, no Variants) dropped; 2 (Variants, and
+   the latest kept entry 0 has Variants) kept; 3 kept; 4 dropped although it has
+   Variants, because the kept entry 3 of its URL has none.  b1 takes the variant
+   set, b2 refuses the repeated URL: a refusal, not a bad artifact. *)
+Definition har_capv : list hentry :=
+  [ har_entry "https://example.com/v" "GET" 200
+      [har_h "variants" "Accept-Language;en;fr"; har_h "variant-key" "en"; har_h "content-type" "text/plain"] "hello" false;
+    har_entry "https://example.com/v" "GET" 200 [har_h "content-type" "text/plain"] "no variants" false;
+    har_entry "https://example.com/v" "GET" 200
+      [har_h "Variants" "Accept-Language;en;fr"; har_h "Variant-Key" "fr"] "bonjour" false;
+    har_entry "https://example.com/w" "GET" 200 [] "w1" false;
+    har_entry "https://example.com/w" "GET" 200
+      [har_h "Variants" "Accept-Language;en;fr"; har_h "Variant-Key" "fr"] "w2" false ].
+Definition har_capv_bundle (v : bversion) : bundle :=
+  har_bundle v (Some (s2b "https://example.com/v")) (map har_exchange (har_kept_entries har_capv)).
+
+Example har_variants_ex :
+  map (har_keptb har_capv) (seq 0 5) = [true; false; true; true; false] /\
+  b_write_taint (har_capv_bundle BV1) = false /\
+  match b_write (har_capv_bundle BV1) with
+  | Ok bs => match b_read (fun _ => true) bs with
+             | Ok b' => Some (map (fun x => (bx_url x, bx_body x)) (b_exchanges b'))
+             | _ => None end
+  | _ => None
+  end = Some [ (s2b "https://example.com/v", s2b "hello"); (s2b "https://example.com/v", s2b "bonjour");
+               (s2b "https://example.com/w", s2b "w1") ] /\
+  b_write (har_capv_bundle BV2) = Err.
+Proof. vm_compute. repeat split; reflexivity. Qed.
+
+(* refusals.  A header value with byte 233 passes the import and is refused by the
+   writer; a damaged base64 body fails the import - even on a POST entry, which
+   would have been dropped. *)
+Definition har_cap_latin1 : list hentry :=
+  [ {| h_url := s2b "https://example.com/a"; h_method := s2b "GET"; h_status := 200%Z;
+       h_resh := [(s2b "x-name", [99; 233])]; h_text := []; h_b64 := false |} ].
+
+Example har_latin1_refused :
+  from_har har_cap_latin1 [] [] =
+  Ok [ {| bx_url := s2b "https://example.com/a"; bx_status := 200;
+          bx_hdr := [(s2b "X-Name", [[99; 233]])]; bx_body := [] |} ] /\
+  b_write (har_bundle BV2 None (map har_exchange (har_kept_entries har_cap_latin1))) = Err /\
+  b_write (har_bundle BV1 (Some (s2b "https://example.com/a"))
+             (map har_exchange (har_kept_entries har_cap_latin1))) = Err.
+Proof. vm_compute. repeat split; reflexivity. Qed.
+
+Example har_bad_body_ex :
+  from_har [har_entry "https://example.com/form" "POST" 200 [] "iVBORw0KGgo" true] [] [] = Err /\
+  from_har [har_entry "https://example.com/form" "POST" 200 [] "iVBORw0KGgo=" true] [] [] = Ok [] /\
+  from_har (har_cap ++ [har_entry "https://example.com/z" "GET" 200 [] "a?b=" true]) [] [] = Err.
+Proof. vm_compute. repeat split; reflexivity. Qed.
+
+(* nvpToHeader on the first entry's headers *)
+Example har_nvp_ex :
+  let h := nvp_to_header is_uncached_header (h_resh (har_entry "" "" 0
+             [har_h ":status" "200"; har_h "content-type" "text/html"; har_h "Set-Cookie" "k=v"; har_h "x-a" "1"; har_h "X-A" "2"]
+             "" false)) in
+  h = [(s2b "Content-Type", [s2b "text/html"]); (s2b "X-A", [s2b "1"; s2b "2"])] /\
+  hdr_values h (s2b "x-a") = [s2b "1"; s2b "2"] /\ hdr_values h (s2b "set-cookie") = [] /\
+  hdr_values h (s2b ":status") = [].
+Proof. vm_compute. repeat split; reflexivity. Qed.
